@@ -28,7 +28,12 @@ def make_pool(rnd):
         tch = rnd.choice([2, 3, 4])
         asc = rnd.random() < 0.3
         f1 = fch1 - 7 * df if asc else fch1
-        pool.append(stg.Frame(fchans=8, tchans=tch, df=df, dt=dt, fch1=f1, ascending=asc, t_start=t, seed=k))
+        if k % 3 == 1:          # a frame built from an array, without metadata argument
+            fr = stg.Frame.from_data(df, dt, f1, asc, np.zeros((tch, 8)), seed=k)
+            fr.t_start = t
+            pool.append(fr)
+        else:
+            pool.append(stg.Frame(fchans=8, tchans=tch, df=df, dt=dt, fch1=f1, ascending=asc, t_start=t, seed=k))
         t += tch * dt + rnd.choice([0.0, 2.5, 30.0, 0.00001 * rnd.randrange(1, 99999)])
     for k in range(rnd.randrange(1, 4)):                    # class 2: another channel count
         pool.append(stg.Frame(fchans=6, tchans=2, df=df, dt=dt, fch1=fch1, ascending=False, t_start=t + 5 * k, seed=20 + k))
